@@ -1,13 +1,23 @@
 """C07 — processors run once per frame in priority order, one per type (spec/World.tla, spec/Bisect.tla)."""
 from . import world_common as wc
 
+PT = {'P1': ((), 0), 'P2': (('P1',), 0), 'Q': ((), 5)}
+
 
 def run(res):
     own = wc.OWN['C07']
     th = res.tier == 'thorough'
-    P = wc.procs({'p1': ('P1', ('on_add', 'on_remove')), 'p1b': ('P1', ()), 'p2': ('P2', ('on_remove',)), 'q': ('Q', ('on_add',))},
-                 {'P1': ((), 0), 'P2': (('P1',), 0), 'Q': ((), 5)})
-    K = wc.base(Acts={'proc', 'process', 'fault'}, Ids={1}, MaxAuto=1, Types={'A'}, Bases={'A': set()}, Prios={-1, 0, 5},
-                Dts={0, 1}, **P)
-    wc.check_and_replay(res, 'c07_processors', K, own, depth_all=4 if th else 3, walks=20000 if th else 3000, walk_len=40)
-    wc.trace_validate(res, 'c07_recorded', wc.big({'proc', 'process', 'fault', 'toggle', 'clear'}), 2000 if th else 150, 60)
+    base = dict(Ids={1}, MaxAuto=1, Types={'A'}, Bases={'A': set()})
+    # ties, zero and negative explicit priorities, class defaults, a subclass processor; re-adding an instance;
+    # a processor raising; a processor removing a processor (also itself) while the frame runs
+    P3 = wc.procs({'p1': ('P1', ('on_add', 'on_remove')), 'p2': ('P2', ('on_remove',)), 'q': ('Q', ())}, PT)
+    K = wc.base(Acts={'proc', 'process', 'fault', 'inframe'}, Prios={-1, 0, 5}, Dts={0, 1} if th else {1}, **base, **P3)
+    wc.check_and_replay(res, 'c07_priorities', K, own, depth_all=4 if th else 3, walks=20000 if th else 2000, walk_len=40)
+    # two instances of one exact type (replacement), fewer priorities
+    P4 = wc.procs({'p1': ('P1', ('on_add', 'on_remove')), 'p1b': ('P1', ()), 'p2': ('P2', ('on_remove',)), 'q': ('Q', ())}, PT)
+    K2 = wc.base(Acts={'proc', 'process', 'inframe'}, Prios={0, 5}, Dts={1}, **base, **P4)
+    wc.check_and_replay(res, 'c07_replacement', K2, own, depth_all=0, walks=20000 if th else 2000, walk_len=40)
+    if th:
+        Kt = wc.base(Acts={'proc', 'process', 'fault', 'inframe'}, Prios={-1, 0, 5}, Dts={0, 1}, **base, **P4)
+        wc.check_and_replay(res, 'c07_all', Kt, own, depth_all=0, walks=0, edges=False)
+    wc.trace_validate(res, 'c07_recorded', wc.big({'proc', 'process', 'fault', 'toggle', 'clear', 'inframe'}), 2000 if th else 150, 60)
